@@ -433,7 +433,89 @@ def check_shared_cost(case):
     return {"nontrivial": True, "weight": n_checked, "classes": [f"det={case['detector']}"]}
 
 
+# ------------------------------------------------------------------ after a documented error
+
+
+def after_error_cells(tier):
+    """Objects that have just raised the documented not-positive-definite error (a flat-lined channel) are used again:
+    directly, after a detector run that failed inside its algorithm with the user's own cost object, after a refit."""
+    for scorer in ("GaussianCovCost", "ChangeScore(GaussianCovCost)", "LocalAnomalyScore(GaussianCovCost)", "Saving(GaussianCovCost)"):
+        for route in ("evaluate_raised", "evaluate_raised_then_refit", "detector_run_raised", "detector_run_raised_then_refit"):
+            for n in (24, 40):
+                yield {"scorer": scorer, "route": route, "n": n, "p": 2}
+
+
+def check_after_error(case):
+    from skchange.anomaly_detectors import CAPA, CircularBinarySegmentation
+    from skchange.change_detectors import PELT, MovingWindow, SeededBinarySegmentation
+
+    name, n, p, route = case["scorer"], case["n"], case["p"], case["route"]
+    k = width(name)
+    good = fixed_data(n, p)
+    bad = good.copy()
+    bad[n // 3: n // 3 + 8, 1] = 20.0  # one channel flat-lines for 8 samples: singular sample covariance there
+    a = n // 3
+    raising = {2: [a, a + 6], 3: [a, a + 3, a + 6], 4: [0, a + 1, a + 7, n]}[k]  # for k = 4 the *inner* part is flat
+    scorer = build_scorer(name)
+    provoked = "no"
+    if route.startswith("evaluate_raised"):
+        scorer.fit(bad)
+        out = evaluate_outcome(scorer, np.asarray([raising], dtype=np.int64))
+        provoked = out[0]
+        if route.endswith("refit"):
+            scorer.fit(good)
+    else:
+        # the user's scorer object inside a detector whose run hits the flat stretch
+        kind = SCORERS[name][0]
+        try:
+            if kind == "cost":
+                det = PELT(scorer, min_segment_length=3)
+            elif kind == "change":
+                det = MovingWindow(scorer, bandwidth=3)
+            elif kind == "local":
+                det = CircularBinarySegmentation(scorer, min_segment_length=3, max_interval_length=12)
+            else:
+                det = CAPA(scorer, min_segment_length=3, max_segment_length=10)
+            det.fit(bad).predict(bad)
+        except RuntimeError as e:
+            provoked = "RuntimeError" if "positive definite" in str(e) else f"RuntimeError({e})"
+        except ValueError as e:
+            provoked = f"ValueError({str(e)[:60]})"
+        scorer.fit(good if route.endswith("refit") else bad)
+    fitted_on = good if route.endswith("refit") or route == "evaluate_raised_then_refit" else bad
+    # now the box predicate on a sample of tuples: invalid cuts raise ValueError, valid cuts on healthy stretches are scored
+    n_checked = 0
+    for cut in itertools.product((-1, 0, 2, n // 2, n - 3, n, n + 2), repeat=k):
+        valid = is_valid(name, p, n, cut)
+        outcome, out, err = evaluate_outcome(scorer, np.asarray([cut], dtype=np.int64))
+        n_checked += 1
+        if not valid:
+            if outcome != "ValueError":
+                raise Violation(f"after an earlier call raised the documented error, an invalid cut gave {outcome} instead of ValueError",
+                                scorer=name, route=route, cut=list(cut), earlier=provoked,
+                                value=np.asarray(out).tolist() if outcome == "value" else None)
+            continue
+        if fitted_on is good:
+            want = expected_value(name, good, cut)
+            if outcome != "value":
+                raise Violation(f"after an earlier call raised the documented error, a valid cut on healthy data gave {outcome}", scorer=name,
+                                route=route, cut=list(cut), earlier=provoked, error=err[:200])
+            if want is not None and not np.all(np.abs(np.asarray(out)[0] - want) <= 1e-6 * (1 + np.abs(want))):
+                raise Violation("after an earlier call raised the documented error, a valid cut is not scored according to the definition",
+                                scorer=name, route=route, cut=list(cut), got=np.asarray(out)[0].tolist(), expected=np.asarray(want).tolist())
+        elif outcome not in ("value", "RuntimeError"):
+            raise Violation(f"after an earlier call raised the documented error, a valid cut gave {outcome}", scorer=name, route=route,
+                            cut=list(cut), earlier=provoked, error=err[:200])
+    return {"nontrivial": provoked == "RuntimeError", "weight": n_checked, "classes": [f"route={route}", f"earlier={provoked[:12]}"]}
+
+
 FACETS = [
+    Facet(name="after_an_error", kind="enumerate", enumerate=after_error_cells, check=check_after_error, exhaustive=True,
+          rule=("covariance-based scorers (cost, change score, local score, saving) that have just raised the documented not-positive-definite error "
+                "on a flat-lined channel - in a direct evaluate, or inside PELT / MovingWindow / CircularBinSeg / CAPA running on the user's own scorer "
+                "object - optionally refitted on healthy data, then 7^k cuts around 0..n: invalid cuts must still raise ValueError, valid cuts on "
+                "healthy data must be scored by the definition; non-trivial = the earlier call did raise the documented error"),
+          shards_quick=8, shards_thorough=8),
     Facet(name="integer_box", kind="enumerate", enumerate=box_cases, check=check_box, exhaustive=True,
           rule=("every integer tuple of [-2,n+2]^k (k=2,3,4) for n in {4,5,6} (thorough: up to 8 for k<=3), p in {1,2}, 18 scorers (17 built-in configurations and a user-defined local score with its own _check_cuts); "
                 "invalid => ValueError, valid => accepted and equal to the definitional value, the same tuple as uint64/uint8/int32 must behave identically; non-trivial = tuples that "
